@@ -97,7 +97,8 @@ def Fasta.empty (cpl : Nat) : Fasta := ⟨[], [], cpl⟩
 
 /-- `FastaFile.read` on the lines of the text. -/
 def fastaRead (text : List Str) (cpl : Nat) : Except Err Fasta :=
-  let ls := text.filter (fun l => !(strip l).isEmpty && l.head? != some ';')
+  -- repaired: every line is stripped first (as `read_iter` does), then blank / comment lines are dropped
+  let ls := (text.map strip).filter (fun l => !l.isEmpty && l.head? != some ';')
   if ls.isEmpty then .error .invalidFile else
   match fastaFind ls with
   | .ok es => .ok ⟨ls, es, cpl⟩
